@@ -63,11 +63,14 @@ pub struct Cfg {
     pub unsafe_mut: bool,
     pub ext: bool,
     pub buffer: bool,
+    /// the flag handed to `MutatorKind::create` when it differs from the generator's own `unsafe_mutations`
+    /// (the public API lets the two be chosen independently); None = the same flag for both, as the CLI does
+    pub inst_unsafe: Option<bool>,
 }
 
 impl Cfg {
     pub fn new(proto: u8) -> Self {
-        Cfg { proto, min: 60, max: 300, mutators: vec![], rate: 0.1, unsafe_mut: false, ext: false, buffer: false }
+        Cfg { proto, min: 60, max: 300, mutators: vec![], rate: 0.1, unsafe_mut: false, ext: false, buffer: false, inst_unsafe: None }
     }
     pub fn range(mut self, min: usize, max: usize) -> Self {
         self.min = min;
@@ -93,7 +96,8 @@ impl Cfg {
             .with_ext_opcodes(self.ext)
             .with_buffer_opcodes(self.buffer);
         if !self.mutators.is_empty() {
-            g = g.with_mutators(self.mutators.iter().map(|m| m.kind().create(self.unsafe_mut)).collect());
+            let inst = self.inst_unsafe.unwrap_or(self.unsafe_mut);
+            g = g.with_mutators(self.mutators.iter().map(|m| m.kind().create(inst)).collect());
         }
         // the public field accepts any f64; the builder clamps to [0,1]
         g.mutation_rate = self.rate;
@@ -101,7 +105,7 @@ impl Cfg {
     }
     pub fn describe(&self) -> String {
         format!(
-            "P{} range=({},{}) mutators=[{}] rate={} unsafe={} ext={} buffer={}",
+            "P{} range=({},{}) mutators=[{}] rate={} unsafe={} ext={} buffer={}{}",
             self.proto,
             self.min,
             self.max,
@@ -109,7 +113,11 @@ impl Cfg {
             self.rate,
             self.unsafe_mut,
             self.ext,
-            self.buffer
+            self.buffer,
+            match self.inst_unsafe {
+                Some(b) => format!(" mutators-created-with-unsafe={b}"),
+                None => String::new(),
+            }
         )
     }
     pub fn to_json(&self) -> serde_json::Value {
@@ -118,6 +126,7 @@ impl Cfg {
             "mutators": self.mutators.iter().map(|m| m.name()).collect::<Vec<_>>(),
             "rate": if self.rate.is_finite() { serde_json::json!(self.rate) } else { serde_json::json!(format!("{}", self.rate)) },
             "unsafe_mutations": self.unsafe_mut, "allow_ext": self.ext, "allow_buffer": self.buffer,
+            "mutators_created_with_unsafe": self.inst_unsafe,
         })
     }
     pub fn from_json(v: &serde_json::Value) -> Cfg {
@@ -142,6 +151,7 @@ impl Cfg {
             unsafe_mut: v["unsafe_mutations"].as_bool().unwrap_or(false),
             ext: v["allow_ext"].as_bool().unwrap_or(false),
             buffer: v["allow_buffer"].as_bool().unwrap_or(false),
+            inst_unsafe: v["mutators_created_with_unsafe"].as_bool(),
         }
     }
 }
